@@ -29,7 +29,42 @@ def cases_for(run):
         prog = S.gen_prog(rng, allow_all=(i % 2 == 0), allow_self=False)
         keys = [("i", k) if i % 4 else ("s", k) for k in range(rng.range(1, 3))] if prog["partition"] else None
         cases.append((prog, S.gen_events(rng, rng.range(4, 14), keys=keys, prog=prog)))
+    # directed class (seed C01-negation-only-own-partition): a partitioned pattern with a .not clause whose forbidden
+    # event arrives, under ANOTHER partition value (or without the field), between the events of an otherwise complete run
+    for i in range(40 if run.tier == "quick" else 600):
+        cases.append(gen_cross_partition_neg(rng, strings=(i % 3 == 0)))
     return cases
+
+
+def gen_cross_partition_neg(rng, strings):
+    n = rng.range(2, 3)
+    tys = [S.TYPES[rng.below(3)] for _ in range(n)]
+    steps = [{"ty": t, "alias": S.ALIASES[j], "all": False,
+              "pred": S.gen_pred(rng, [S.ALIASES[q] for q in range(j)], S.ALIASES[j], 0, False) if rng.chance(1, 4) else None}
+             for j, t in enumerate(tys)]
+    nty = S.TYPES[3] if rng.chance(3, 4) else S.TYPES[rng.below(3)]
+    neg = {"ty": nty, "pred": S.gen_pred(rng, [], None, 0, False) if rng.chance(1, 4) else None}
+    prog = S.default_prog(steps, [neg], "k")
+    kind = "s" if strings else "i"
+    k0, k1 = (kind, 0), (kind, 1)
+
+    def ev(ty, key):
+        f = {name: S.gen_value(rng, name) for name in ("x", "y", "s")}
+        if key is not None:
+            f["k"] = key
+        return {"ty": ty, "f": f}
+    evs = [ev(S.TYPES[rng.below(4)], rng.choice([k0, k1])) for _ in range(rng.below(3))]
+    cut = rng.range(1, n - 1)
+    for j, t in enumerate(tys):
+        if j == cut:
+            evs.append(ev(nty, k1 if rng.chance(4, 5) else None))
+        evs.append(ev(t, k0))
+        if rng.chance(1, 4):
+            evs.append(ev(S.TYPES[rng.below(3)], k1))
+    evs += [ev(S.TYPES[rng.below(4)], rng.choice([k0, k1])) for _ in range(rng.below(3))]
+    for i, e in enumerate(evs):
+        e["id"] = i
+    return prog, evs
 
 
 def check(run):
